@@ -23,10 +23,17 @@ namespace Assertion
 /-- protocol classes, as tags -/
 abbrev PType := Nat
 
-/-- the registered nodes: ids 0 … n-1 in registration order, each with its protocol's type -/
+/-- the registered nodes: ids 0 … n-1 in registration order, and which protocol types each node's protocol
+    is an instance of: `isA node T` = `isinstance(node.protocol_encapsulator.protocol, T)` - true for the
+    protocol's own class and for every class it derives from (a common base protocol, `IProtocol` itself) -/
 structure Nodes where
   n : Nat
-  ptype : NodeId → PType
+  isA : NodeId → PType → Bool
+
+/-- nodes given by the class of each node's protocol and the subclass relation among the classes
+    (`sub c T` = class `c` derives from `T`; a class is always an instance of itself) -/
+def Nodes.ofClasses (n : Nat) (cls : NodeId → PType) (sub : PType → PType → Bool) : Nodes :=
+  ⟨n, fun node T => cls node == T || sub (cls node) T⟩
 
 /-- a decorated assertion: its kind and the timeline of its predicate's values -/
 inductive Spec
@@ -49,7 +56,7 @@ inductive TState
 
 /-- `TestCase._register_node`, for each node in registration order (repaired code only) -/
 def registerAll (ns : Nodes) (T : PType) (d : NodeId → Option Bool) : NodeId → Option Bool :=
-  (List.range ns.n).foldl (fun d node => if ns.ptype node == T then Sim.upd d node (some false) else d) d
+  (List.range ns.n).foldl (fun d node => if ns.isA node T then Sim.upd d node (some false) else d) d
 
 /-- `assertion()` in `AssertionHandler.__init__`, then `register_node` for every node -/
 def Spec.init (ns : Nodes) (eager : Bool) : Spec → TState
@@ -66,7 +73,7 @@ def Spec.init (ns : Nodes) (eager : Bool) : Spec → TState
     round - 2^(rounds) for a single `finalize`. -/
 def noteAll (ns : Nodes) (T : PType) (pred : NodeId → Bool) (d : NodeId → Option Bool) : NodeId → Option Bool :=
   (List.range ns.n).foldl (fun d node =>
-    if ns.ptype node == T then
+    if ns.isA node T then
       fun m =>
         if m = node then
           let cur := d node
@@ -78,7 +85,7 @@ def noteAll (ns : Nodes) (T : PType) (pred : NodeId → Bool) (d : NodeId → Op
 def testIteration (ns : Nodes) (s : Spec) (st : TState) (it : Nat) : Option TState :=
   match s, st with
   | .alwaysProto T pred, st =>
-    if (List.range ns.n).all (fun node => !(ns.ptype node == T) || pred it node) then some st else none
+    if (List.range ns.n).all (fun node => !(ns.isA node T) || pred it node) then some st else none
   | .eventuallyProto T pred, .perNode d => some (.perNode (noteAll ns T (pred it) d))
   | .alwaysSim pred, st => if pred it then some st else none
   | .eventuallySim pred, .flag b => some (.flag (if pred it then true else b))
